@@ -726,6 +726,26 @@ func (c *ExprCtx) call(x CCall) TV {
 			return TV{V: Ite(Ge(a, IntLit(0)), a, Sub(IntLit(0), a))}
 		case "len":
 			return c.lenExpr(c.expr(x.Args[0]))
+		case "forallq", "existsq":
+			// forallq(i, lo, hi, body): the same meaning as forall, encoded as a first-order
+			// quantifier (instantiated by the solver's E-matching). Meant for assumed facts
+			// (preconditions about every element) that are used pointwise.
+			if len(x.Args) != 4 {
+				c.fail("%s(i, lo, hi, body) expected", id.Name)
+			}
+			v, ok := x.Args[0].(CIdent)
+			if !ok {
+				c.fail("bound variable expected")
+			}
+			bv := T{"|bv!" + v.Name + "|", SInt}
+			lo, hi := c.intExpr(x.Args[1]), c.intExpr(x.Args[2])
+			inner := c.withBound(v.Name, TV{V: bv})
+			body := inner.boolExpr(x.Args[3])
+			rng := And(Le(lo, bv), Lt(bv, hi))
+			if id.Name == "forallq" {
+				return TV{V: T{"(forall ((" + bv.S + " Int)) " + Imp(rng, body).S + ")", SBool}, Typ: types.Typ[types.Bool]}
+			}
+			return TV{V: T{"(exists ((" + bv.S + " Int)) " + And(rng, body).S + ")", SBool}, Typ: types.Typ[types.Bool]}
 		case "forall", "exists":
 			// forall(i, lo, hi, body): lo <= i < hi
 			if len(x.Args) != 4 {
@@ -852,6 +872,25 @@ func (c *ExprCtx) call(x CCall) TV {
 			op := strings.TrimRight(id.Name[1:], "0123456789")
 			w := id.Name[1+len(op):]
 			f := e.s.DeclareFun("bits:"+op+":uint"+w, []string{SInt, SInt}, SInt)
+			if k := "bits-ax:" + f; !e.s.declSet[k] {
+				// elementary bounds of the unsigned operators (true of the real operators; the same
+				// facts the code encoding assumes at each use)
+				e.s.declSet[k] = true
+				var bnd string
+				switch op {
+				case "and":
+					bnd = fmt.Sprintf("(and (<= 0 (%s a b)) (<= (%s a b) a) (<= (%s a b) b))", f, f, f)
+				case "or":
+					bnd = fmt.Sprintf("(and (>= (%s a b) a) (>= (%s a b) b) (<= (%s a b) (+ a b)))", f, f, f)
+				case "xor":
+					bnd = fmt.Sprintf("(and (<= 0 (%s a b)) (<= (%s a b) (+ a b)))", f, f)
+				case "andnot":
+					bnd = fmt.Sprintf("(and (<= 0 (%s a b)) (<= (%s a b) a))", f, f)
+				}
+				if bnd != "" {
+					e.s.decls = append(e.s.decls, fmt.Sprintf("(assert (forall ((a Int) (b Int)) (! (=> (and (>= a 0) (>= b 0)) %s) :pattern ((%s a b)))))", bnd, f))
+				}
+			}
 			return TV{V: App(SInt, f, c.intExpr(x.Args[0]), c.intExpr(x.Args[1]))}
 		case "subslice":
 			// subslice(s, lo, hi): the Go expression s[lo:hi] (same storage)
